@@ -1,4 +1,4 @@
-import Aurora.Lemmas.MantarayMem
+import Aurora.Lemmas.MantarayPrefix
 /-!
 # C10 — Directory manifests map paths to the last written entry
 
@@ -10,11 +10,11 @@ snapshots it, `reload` returns to the snapshot).
 The full statement `C10_full` — every history of add / remove / store / reload / lookup / hasPrefix
 answers as the map does — is **false of the code** (six independent defects, all in the dependency,
 each with a minimal history below and a `known:` entry); what is proved:
-(1) `C10_add_lookup_refines` — the full refinement for unbounded histories of add / lookup on an
-in-memory manifest (own path and frame condition, edge splits, prefix limit, overwrites);
+(1) `C10_add_lookup_refines` — the full refinement for unbounded histories of add / lookup /
+hasPrefix on an in-memory manifest (own path and frame condition, edge splits, prefix limit, overwrites);
 (2) for *every* trie state (loaded, lazily loaded or reloaded; any history before it) a lookup of the
 path just added / just removed answers as the map does.
-`hasPrefix`, the frame condition of `remove` inside its guard, and persistence across store / reload
+The frame condition of `remove` inside its guard and persistence across store / reload
 are tied to the code only by the differential run on histories that stay inside the guard.
 -/
 namespace Aurora.Mantaray
@@ -22,34 +22,45 @@ namespace Aurora.Mantaray
 /-- The property: the manifest refines the path map on every history. -/
 def C10_full : Prop := ∀ ops : List Op, (run State.new ops).2 = specRun {} ops
 
-/-- the operations of the in-memory fragment: adds carrying metadata, and lookups -/
+/-- the operations of the in-memory fragment: adds carrying metadata, lookups and prefix queries -/
 def MemOp : Op → Prop
   | .add _ _ md => md ≠ []
   | .lookup _ => True
+  | .hasPrefix _ => True
   | _ => False
 
 /-- Refinement for the in-memory fragment (no bound on the history, any paths — shared prefixes,
-    edge splits, the 30-byte prefix limit, overwrites): every history of `add` (with metadata) and
-    `lookup` on a fresh manifest answers exactly as the path map — each lookup returns the reference
-    and metadata of the last add of that path, or not-found.  (This is DESIGN's `add_lookup_refines`
-    restricted to histories without store / reload / hasPrefix; those are in the differential run only.) -/
+    edge splits, the 30-byte prefix limit, overwrites): every history of `add` (with metadata),
+    `lookup` and `hasPrefix` on a fresh manifest answers exactly as the path map — each lookup returns
+    the reference and metadata of the last add of that path, or not-found; each prefix query says
+    whether some mapped path starts with the prefix.  (This is DESIGN's `add_lookup_refines`
+    restricted to histories without store / reload; those are in the differential run only.) -/
 theorem C10_add_lookup_refines (ops : List Op) (hops : ∀ op ∈ ops, MemOp op) :
     (run State.new ops).2 = specRun {} ops := by
   suffices H : ∀ (ops : List Op) (s : State) (sp : Spec), (∀ op ∈ ops, MemOp op) → s.dead = false →
       Mem s.root → (∀ fl q, q.length < fl → sem fl s.root q = sp.cur.find q) →
+      (∀ fl q, q.length < fl → hp fl s.root q = sp.cur.hasPrefix q) →
       (run s ops).2 = specRun sp ops from
-    H ops State.new {} hops rfl Mem.new (by
-      intro fl q hq
-      cases fl with
-      | zero => omega
-      | succ f =>
-        show sem (f + 1) Node.new q = PathMap.find [] q
-        rw [sem_noforks f Node.new rfl]; cases q <;> simp [semNode_new, PathMap.find])
+    H ops State.new {} hops rfl Mem.new
+      (by
+        intro fl q hq
+        cases fl with
+        | zero => omega
+        | succ f =>
+          show sem (f + 1) Node.new q = PathMap.find [] q
+          rw [sem_noforks f Node.new rfl]; cases q <;> simp [semNode_new, PathMap.find])
+      (by
+        intro fl q hq
+        cases fl with
+        | zero => omega
+        | succ f =>
+          show hp (f + 1) Node.new q = PathMap.hasPrefix [] q
+          rw [hp_noforks f Node.new rfl]; cases q <;> simp [PathMap.hasPrefix])
   intro ops
   induction ops with
-  | nil => intro s sp _ _ _ _; rfl
+  | nil => intro s sp _ _ _ _ _; rfl
   | cons op rest ih =>
-    intro s sp hall hlive hm hsim
+    intro s sp hall hlive hm hsim hsimp
     have hop := hall op (by simp)
     have hrest : ∀ o ∈ rest, MemOp o := fun o ho => hall o (by simp [ho])
     cases op with
@@ -57,20 +68,25 @@ theorem C10_add_lookup_refines (ops : List Op) (hops : ∀ op ∈ ops, MemOp op)
       simp only [MemOp] at hop
       obtain ⟨n', hn'⟩ := add_isSome e md (p.length + 1) s.root p hm
       obtain ⟨hm', law⟩ := sem_add e md hop (p.length + 1) s.root p n' hm (by omega) hn'
+      have lawp := hp_add e md (p.length + 1) s.root p n' hm (by omega) hn'
       simp only [run, specRun, step, hlive, Bool.false_eq_true, if_false, stepLive, hn', specStep]
       congr 1
-      exact ih _ _ hrest (by simpa using hlive) hm' (by
-        intro fl q hq
-        rw [law fl q hq, find_insert, hsim fl q hq])
+      exact ih _ _ hrest (by simpa using hlive) hm'
+        (by intro fl q hq; rw [law fl q hq, find_insert, hsim fl q hq])
+        (by intro fl q hq; rw [lawp fl q hq, hasPrefix_insert, hsimp fl q hq])
     | lookup p =>
       simp only [run, specRun, step, hlive, Bool.false_eq_true, if_false, stepLive, specStep,
         lookup_mem _ hm, hsim _ p (Nat.lt_succ_self _)]
       congr 1
-      exact ih _ _ hrest (by simpa using hlive) hm hsim
+      exact ih _ _ hrest (by simpa using hlive) hm hsim hsimp
+    | hasPrefix p =>
+      simp only [run, specRun, step, hlive, Bool.false_eq_true, if_false, stepLive, specStep,
+        hasPrefix_mem _ hm, hsimp _ p (Nat.lt_succ_self _)]
+      congr 1
+      exact ih _ _ hrest (by simpa using hlive) hm hsim hsimp
     | remove p => exact absurd hop (by simp [MemOp])
     | store => exact absurd hop (by simp [MemOp])
     | reload => exact absurd hop (by simp [MemOp])
-    | hasPrefix p => exact absurd hop (by simp [MemOp])
 
 /-- Refinement, add/lookup clause (partial): after `add p e md` (non-empty metadata) on ANY live
     manifest state, `lookup p` answers `(e, md)` — whatever was stored, reloaded, read or removed
@@ -157,7 +173,7 @@ theorem C10_full_counterexample : ¬ C10_full :=
 /-! ## Non-vacuity -/
 
 /-- a history of the in-memory fragment with an edge split, an overwrite and a long path -/
-example : ∀ op ∈ [Op.add ab (r 1) kv, .add a (r 2) kv, .add a (r 3) kv, .lookup ab, .lookup a, .lookup x], MemOp op := by
+example : ∀ op ∈ [Op.add ab (r 1) kv, .add a (r 2) kv, .add a (r 3) kv, .lookup ab, .hasPrefix a, .lookup x], MemOp op := by
   intro op h
   simp only [List.mem_cons, List.mem_nil_iff, or_false] at h
   rcases h with rfl | rfl | rfl | rfl | rfl | rfl <;> simp [MemOp, kv]
